@@ -1,3 +1,38 @@
-From Coq Require Import ZArith.
-Theorem placeholder_C05 : 0 = 0. Proof. reflexivity. Qed.
-Print Assumptions placeholder_C05.
+(* C05 - Arithmetic and hashing kernel is mathematically exact on every configuration.
+   The theorems below are about Gallina REGENERATED from /repo's C source on every run (tools/c2coq.py ->
+   coq/Gen/*.v); proofs in Kernel/Field5x52.v, Kernel/Field5x52Sqr.v, Kernel/CtPrimitives.v.
+   For ALL limb values inside the magnitude contract: no 128-bit accumulator wraps, output limbs are in
+   range, and the value is the product (square) modulo p.  The rest of the kernel (group law, scalar
+   multiplication algorithms, modular inverse, the 10x26 / 8x32 / struct-int128 / asm configurations,
+   SHA-256/HMAC/RFC 6979) is tied by the differential correspondence of ./check C05 on a build matrix. *)
+From Coq Require Import ZArith List Bool.
+Require Import Kernel.CSem Kernel.Field5x52 Kernel.Field5x52Sqr Kernel.CtPrimitives.
+Require Import Gen.fe_mul_inner Gen.fe_sqr_inner Gen.scalar_cmov Gen.fe_impl_cmov.
+Import ListNotations.
+Local Open Scope Z_scope.
+
+Theorem fe_mul_inner_correct : forall a0 a1 a2 a3 a4 b0 b1 b2 b3 b4,
+  0 <= a0 < 2^56 -> 0 <= a1 < 2^56 -> 0 <= a2 < 2^56 -> 0 <= a3 < 2^56 -> 0 <= a4 < 2^52 ->
+  0 <= b0 < 2^56 -> 0 <= b1 < 2^56 -> 0 <= b2 < 2^56 -> 0 <= b3 < 2^56 -> 0 <= b4 < 2^52 ->
+  fe_mul_inner_k a0 a1 a2 a3 a4 b0 b1 b2 b3 b4 (fun r0 r1 r2 r3 r4 =>
+  (0 <= r0 < 2^52 /\ 0 <= r1 < 2^52 /\ 0 <= r2 < 2^52 /\ 0 <= r3 < 2^52 /\ 0 <= r4 < 2^49) /\
+  (val5 r0 r1 r2 r3 r4 - val5 a0 a1 a2 a3 a4 * val5 b0 b1 b2 b3 b4) mod P256 = 0).
+Proof. exact Kernel.Field5x52.fe_mul_inner_correct. Qed.
+Print Assumptions fe_mul_inner_correct.
+
+Theorem fe_sqr_inner_correct : forall a0 a1 a2 a3 a4,
+  0 <= a0 < 2^56 -> 0 <= a1 < 2^56 -> 0 <= a2 < 2^56 -> 0 <= a3 < 2^56 -> 0 <= a4 < 2^52 ->
+  fe_sqr_inner_k a0 a1 a2 a3 a4 (fun r0 r1 r2 r3 r4 =>
+  (0 <= r0 < 2^52 /\ 0 <= r1 < 2^52 /\ 0 <= r2 < 2^52 /\ 0 <= r3 < 2^52 /\ 0 <= r4 < 2^49) /\
+  (val5 r0 r1 r2 r3 r4 - val5 a0 a1 a2 a3 a4 * val5 a0 a1 a2 a3 a4) mod P256 = 0).
+Proof. exact Kernel.Field5x52Sqr.fe_sqr_inner_correct. Qed.
+Print Assumptions fe_sqr_inner_correct.
+
+(* the modulus used above is the secp256k1 field prime *)
+Theorem P256_is_field_prime : P256 = 0xFFFFFFFFFFFFFFFFFFFFFFFFFFFFFFFFFFFFFFFFFFFFFFFFFFFFFFFEFFFFFC2F.
+Proof. reflexivity. Qed.
+Print Assumptions P256_is_field_prime.
+
+(* non-vacuity: a concrete in-contract operand pair *)
+Example fe_mul_inner_example : fe_mul_inner 1 0 0 0 0 2 0 0 0 0 = [2; 0; 0; 0; 0].
+Proof. vm_compute. reflexivity. Qed.
